@@ -9,6 +9,8 @@ package main
 // disagreement is the implementation's or the model's.
 
 import (
+	"bytes"
+	"encoding/json"
 	"fmt"
 	"os"
 	"sort"
@@ -380,9 +382,10 @@ func genDFile(r *Rand, tier string) *dFile {
 			default:
 				td.Kind = "type"
 			}
+			compositePK := r.Chance(1, 3)
 			for fi, fn := range g.fields[appKey(parts)+"."+tn] {
 				fd := dField{Name: fn, Ty: g.ty(parts, true), Attrs: g.attrs(true)}
-				if td.Kind == "table" && fi == 0 {
+				if td.Kind == "table" && (fi == 0 || (fi == 1 && compositePK)) {
 					fd.Attrs.Tags = append([]string{"pk"}, fd.Attrs.Tags...)
 				}
 				td.Fields = append(td.Fields, fd)
@@ -585,6 +588,14 @@ func (l *c02Layout) mark(b *strings.Builder, ind string, tok string) {
 }
 
 func (l *c02Layout) q(s string) string {
+	if c09EscapeMode {
+		// a double-quoted string is read as a JSON string: any text can be written
+		var jb bytes.Buffer
+		enc := json.NewEncoder(&jb)
+		enc.SetEscapeHTML(false)
+		_ = enc.Encode(s)
+		return strings.TrimSuffix(jb.String(), "\n")
+	}
 	qc := l.quote
 	if strings.ContainsRune(s, rune(qc)) {
 		if qc == '"' {
